@@ -120,6 +120,7 @@ fn relation_class(p: &Pair, host: &str) -> &'static str {
         Some(r) if r.is_empty() => "empty",
         Some(r) if host.ends_with(&format!(".{r}")) => "label-suffix",
         Some(r) if host.ends_with(r.as_str()) => "char-suffix",
+        Some(r) if r.ends_with(&format!(".{host}")) => "host-is-parent-of-id",
         Some(r) if r.eq_ignore_ascii_case(host) => "case-variant",
         Some(_) => "unrelated",
     }
@@ -200,7 +201,7 @@ fn verify_pair(rep: &mut Report, reference: &Reference, log: &std::sync::Arc<Log
         p.custom,
         matches!(verdict, RefVerdict::Accept(_))
     );
-    let nontrivial = matches!(rel, "label-suffix" | "char-suffix" | "case-variant")
+    let nontrivial = matches!(rel, "label-suffix" | "char-suffix" | "case-variant" | "host-is-parent-of-id")
         || p.tag.starts_with("psl")
         || host.contains("xn--")
         || host == "localhost"
@@ -399,6 +400,9 @@ fn generate(args: &Args, psl: &RefPsl, rng: &mut Rng) -> Vec<Pair> {
         for s in char_suffixes(host) {
             rps.push((Some(s), "char-suffix"));
         }
+        // the host is a parent domain of the RP ID (RP ID has more labels than the origin host)
+        rps.push((Some(format!("login.{host}")), "host-is-parent-of-id"));
+        rps.push((Some(format!("a.b.{host}")), "host-is-parent-of-id"));
         rps.push((Some(format!(".{host}")), "leading-dot"));
         rps.push((Some(format!("{host}.")), "trailing-dot"));
         for s in label_suffixes(host).into_iter().take(2) {
@@ -470,6 +474,7 @@ fn generate(args: &Args, psl: &RefPsl, rng: &mut Rng) -> Vec<Pair> {
         out.push(Pair { android: false, origin: origin.clone(), rp: Some(suffix.clone()), localhost: false, custom: false, tag: "psl-suffix-as-id" });
         out.push(Pair { android: false, origin: origin.clone(), rp: Some(host.clone()), localhost: false, custom: false, tag: "psl-host-as-id" });
         out.push(Pair { android: false, origin: format!("https://{suffix}"), rp: None, localhost: false, custom: false, tag: "psl-suffix-as-host" });
+        out.push(Pair { android: false, origin: format!("https://{suffix}"), rp: Some(host.clone()), localhost: false, custom: false, tag: "psl-host-is-parent-of-id" });
         out.push(Pair { android: true, origin: host.clone(), rp: Some(suffix.clone()), localhost: false, custom: false, tag: "psl-suffix-as-id" });
         out.push(Pair { android: true, origin: suffix.clone(), rp: None, localhost: false, custom: false, tag: "psl-suffix-as-host" });
         if r.ascii != r.unicode {
